@@ -142,6 +142,10 @@ func run(e *core.Env) {
 
 	var history []string
 	staleDelivered := false
+	// The shipped tun worker checks "not set up" and then sends the hello; the frame worker may
+	// serve the peer's request in between. decided[x] = x has passed the check, not yet sent.
+	decided := map[string]bool{}
+	overtaken := false
 	noteDelivery := func(p *simnet.Packet) {
 		if _, fu := isHello(p, parser); !fu && helloAge(p, parser) >= 30*time.Second {
 			staleDelivered = true
@@ -166,6 +170,11 @@ func run(e *core.Env) {
 				if h == "both-initiated" {
 					sub = "both-initiated"
 				}
+			}
+			if overtaken {
+				// A router sent its hello although its session had been set up (as the server
+				// of the peer's request) between its decision and the send.
+				sub = "hello-sent-after-decision-was-overtaken"
 			}
 			if staleDelivered {
 				// A hello request older than the 30 s after which its sender
@@ -216,6 +225,18 @@ func run(e *core.Env) {
 		if retriesB < 5 && notUp(B, A) {
 			opts = append(opts, "B", "B")
 		}
+		if retriesA < 5 && notUp(A, B) && !decided["A"] {
+			opts = append(opts, "A-decides")
+		}
+		if retriesB < 5 && notUp(B, A) && !decided["B"] {
+			opts = append(opts, "B-decides")
+		}
+		if decided["A"] {
+			opts = append(opts, "A-sends", "A-sends")
+		}
+		if decided["B"] {
+			opts = append(opts, "B-sends", "B-sends")
+		}
 		opts = append(opts, "time")
 		if !notUp(A, B) || !notUp(B, A) {
 			opts = append(opts, "forget")
@@ -234,6 +255,30 @@ func run(e *core.Env) {
 		case "B":
 			sendHello(B, A, "B")
 			retriesB++
+			if h := pump(); pendingSetups(h) >= 2 {
+				history = append(history, "both-initiated")
+				e.Probe("hello_both_initiated")
+			}
+		case "A-decides", "B-decides":
+			decided[op[:1]] = true
+			history = append(history, op)
+		case "A-sends", "B-sends":
+			x, y, name := A, B, "A"
+			if op[:1] == "B" {
+				x, y, name = B, A, "B"
+			}
+			decided[name] = false
+			if !notUp(x, y) {
+				overtaken = true
+				e.Probe("hello_sent_after_decision_was_overtaken")
+				e.Fault("slow_sender")
+			}
+			sendHello(x, y, name)
+			if name == "A" {
+				retriesA++
+			} else {
+				retriesB++
+			}
 			if h := pump(); pendingSetups(h) >= 2 {
 				history = append(history, "both-initiated")
 				e.Probe("hello_both_initiated")
